@@ -379,62 +379,3 @@ Proof.
   split; [exact I2|]. split; [now apply Coh_CohFC | intros _; exact K].
 Qed.
 
-(* ================================================================================================ *)
-(* the contract of an operation: attribute setters only inside a transaction ("make sure to flush cache ... or use context
-   manager"); union is not covered by this invariant proof yet *)
-Definition op_ok (s : state) (p : op) : Prop :=
-  match p with
-  | OSetCharge _ _ | OSetRadical _ _ => o_backup (s_cur s) <> None
-  | OUnion _ _ => False
-  | _ => True
-  end.
-
-Theorem step_W s p : W s -> op_ok s p -> W (fst (step s p)).
-Proof.
-  intros Ws Ok. pose proof (W_cur s Ws) as Uc. destruct p; cbn [step op_ok] in *.
-  - apply W_lift; [exact Ws | apply read_good | now apply read_HC].
-  - apply W_strong; [exact Ws | apply add_atom_good | apply add_atom_strong].
-  - apply W_strong; [exact Ws | apply add_bond_good | apply add_bond_strong].
-  - apply W_strong; [exact Ws | apply delete_atom_good | apply delete_atom_strong].
-  - apply W_strong; [exact Ws | apply delete_bond_good | apply delete_bond_strong].
-  - apply W_strong; [exact Ws | apply remap_good | apply remap_strong].
-  - destruct Ok.
-  - pose proof (W_step_copy s Ws) as K. destruct (copy_mol false false (s_heap s) (s_cur s)) as [[h1 b]|e]; exact K.
-  - pose proof (W_step_sub ats s Ws) as K. destruct (substructure ats (s_heap s) (s_cur s)) as [[[h2 o2] [e|]]|e]; exact K.
-  - destruct s as [h o [|a t]]; [exact Ws | now apply W_swap].
-  - apply W_strong; [exact Ws | apply flush_good | apply flush_strong].
-  - now apply W_step_enter.
-  - now apply W_step_exit_ok.
-  - now apply W_step_exit_exn.
-  - apply W_lift; [exact Ws | apply set_charge_good | now apply set_charge_HC].
-  - apply W_lift; [exact Ws | apply set_radical_good | now apply set_radical_HC].
-  - apply W_strong; [exact Ws | apply patch_good | apply patch_strong].
-  - apply W_lift; [exact Ws | apply (set_name_good (Some x)) | cbv beta iota delta [ok]; now apply (same_view_HC _ (s_cur s))].
-  - apply W_lift; [exact Ws | apply (set_meta_good (Some (zset (match o_meta (s_cur s) with Some d => d | None => [] end) k v))) | cbv beta iota delta [ok]; now apply (same_view_HC _ (s_cur s))].
-Qed.
-
-Fixpoint ops_ok (s : state) (ops : list op) : Prop :=
-  match ops with [] => True | p :: t => op_ok s p /\ ops_ok (fst (step s p)) t end.
-Theorem run_W ops : forall s, W s -> ops_ok s ops -> W (run ops s).
-Proof.
-  unfold run. induction ops as [|p t IH]; intros s Ws Ok; [exact Ws|]. cbn [fold_left]. destruct Ok as [O1 O2].
-  apply IH; [now apply step_W | exact O2].
-Qed.
-
-(* the empty world *)
-Definition empty_mol : mobj := mkM [] [] [] None None None None.
-Definition empty_state : state := mkS (mkH [] 0) empty_mol [].
-Lemma W_empty : W empty_state.
-Proof.
-  split; [|cbn; split; [intros ? [] | exact I]]. constructor; [|constructor]. split; [split|split].
-  - constructor.
-    + reflexivity.
-    + split; [constructor | intros ? ? H; discriminate].
-    + intros n m r H. discriminate.
-    + reflexivity.
-    + intros r [].
-    + intros r [].
-  - intros l H. discriminate.
-  - intros k s _ H. discriminate.
-  - intros _ k s H. discriminate.
-Qed.
